@@ -35,7 +35,7 @@ def cases(tier, seed):
             d = gen.random_mesh(rng, 80 if tier == "quick" else 600, families=gen.DEFAULT_FAMILIES + ["sample"])
         yield {"mesh": d, "dseed": int(rng.integers(0, 10**6)), "lead": [int(x) for x in rng.integers(1, 4, size=int(rng.integers(0, 4)))],
                "dtype": str(rng.choice(["float64", "float64", "float32", "int64", "bool"])), "rule": int(rng.integers(0, len(RULES))) if rng.random() < 0.6 else -1,
-               "history": str(rng.choice(["fresh", "face_areas_first", "other_rule_first"])), "layout": str(rng.choice(["C", "C", "F", "T", "strided", "T_via_transpose"]))}
+               "history": str(rng.choice(["fresh", "face_areas_first", "other_rule_first"])), "layout": str(rng.choice(["C", "C", "F", "T", "strided", "T_via_transpose"])), "backend": str(rng.choice(["numpy", "numpy", "numpy", "dask_data", "dask_grid", "dask_both"]))}
 
 
 def run_case(ctx, case):
@@ -84,6 +84,13 @@ def run_case(ctx, case):
     uda = U.UxDataArray(stored, dims=ldims + ["n_face"], uxgrid=g, name="psi")
     if layout == "T_via_transpose" and lead:
         uda = U.UxDataArray(np.ascontiguousarray(a.T), dims=(ldims + ["n_face"])[::-1], uxgrid=g, name="psi").transpose(*(ldims + ["n_face"]))
+    backend = case.get("backend", "numpy")
+    if backend in ("dask_grid", "dask_both"):
+        g.chunk()
+    if backend in ("dask_data", "dask_both"):
+        uda = uda.chunk({"n_face": max(1, m.n_face // 3)})
+    sig["backend"] = backend
+    ctx.observe("backend_" + backend)
     try:
         r = uda.integrate(**kw)
     except Exception as e:
